@@ -352,7 +352,7 @@ CLAIMS["C03"].update(
               "+ latency oracle")
 CLAIMS["C07"].update(
     category="proof",
-    text="17 Lean theorems over the kernel model. For every reachable state: every future id in use has exactly "
+    text="16 Lean theorems over the kernel model. For every reachable state: every future id in use has exactly "
          "one role (start future of one child, completion future of one group, handle waiter, sleep, user "
          "future) - the start future is private to the handshake (C07_future_roles, _start_future_fresh); a "
          "start future changes state only from pending and only by (a) started() executed by that very child, "
